@@ -5,6 +5,13 @@
 //   eig_copy A x                                      eigen<double>::copy_matrix / copy_vector / create_vector, then spmv
 //   evt_ops cx b X Y v w c                            every specialisation of value_type/eigen.hpp at Eigen::Matrix<T,b,b>,
 //                                                     T = double (cx 0) or std::complex<double> (cx 1), b = 2..4
+//   mxp_spmv b pm pv ct a A x beta y | mxp_residual b pm pv ct f A x | mxp_vmul b pm pv ct a X y beta z
+//                                                     the MIXED scalar/block overloads (detail/matrix_ops.hpp, builtin.hpp mixed
+//                                                     vmul, backend::reinterpret_as_rhs) with a block matrix / block diagonal of
+//                                                     static_matrix<TM,b,b> and FLAT SCALAR vectors of TV, TM, TV in {float (0),
+//                                                     double (1)} independently (pm, pv), b = 2..4, ct 0 std::vector / 1
+//                                                     numa_vector, on data exact in binary32; POISON = NaN in an output that the
+//                                                     call must overwrite (beta = 0, residual)
 // Oracles: the defining formulas evaluated in exact rational arithmetic (independent of the Lean model).
 #include "gen.hpp"
 #include <complex>
@@ -14,6 +21,7 @@
 #include <Eigen/Dense>
 #include <amgcl/backend/eigen.hpp>
 #include <amgcl/value_type/eigen.hpp>
+#include <amgcl/value_type/static_matrix.hpp>
 using namespace vh;
 
 typedef std::complex<Q> CQ; typedef std::complex<double> CD;
@@ -104,8 +112,75 @@ template <class T, int B> struct EVT {
     }
 };
 
+// ---------------------------------------------------------------- mixed scalar/block overloads at two precisions
+struct BMatQ { long n = 0, m = 0; std::vector<ptrdiff_t> ptr, col; std::vector<std::vector<Q>> val; };
+static BMatQ rdbmat(Cur &c, int B) {
+    BMatQ A; A.n = c.nat(); A.m = c.nat(); if (A.n < 0 || A.m < 0) throw bad_input("shape"); A.ptr.push_back(0);
+    for (long i = 0; i < A.n; ++i) { long k = c.nat(); if (k < 0) throw bad_input("k"); for (long j = 0; j < k; ++j) { long cc = c.nat(); if (cc < 0 || cc >= A.m) throw bad_input("col"); A.col.push_back(cc); std::vector<Q> v(B * B); for (auto &e : v) e = c.rat(); A.val.push_back(v); } A.ptr.push_back((ptrdiff_t)A.col.size()); }
+    return A;
+}
+static bool f32_exact(const Q &x) { return x.poison || (x.v.get_den() == 1 && abs(x.v.get_num()) <= (1L << 12)); }
+static bool f32_exact(const std::vector<Q> &v) { for (auto &x : v) if (!f32_exact(x)) return false; return true; }
+template <class T> static T to_t(const Q &q) { return q.poison ? std::numeric_limits<T>::quiet_NaN() : (T)q.v.get_d(); }
+template <class T> static Q from_t(T d) { return std::isnan(d) ? Q::poisoned() : Q((double)d); }
+template <class TV, bool NUMA> struct Cont;
+template <class TV> struct Cont<TV, false> { typedef std::vector<TV> type; static type make(const std::vector<Q> &v) { type x(v.size()); for (size_t i = 0; i < v.size(); ++i) x[i] = to_t<TV>(v[i]); return x; } };
+template <class TV> struct Cont<TV, true> { typedef amgcl::backend::numa_vector<TV> type; static type make(const std::vector<Q> &v) { std::vector<TV> x(v.size()); for (size_t i = 0; i < v.size(); ++i) x[i] = to_t<TV>(v[i]); return type(x); } };
+template <class V> static std::vector<Q> back(const V &x) { std::vector<Q> v(x.size()); for (size_t i = 0; i < v.size(); ++i) v[i] = from_t(x[i]); return v; }
+static bool qsame(const std::vector<Q> &a, const std::vector<Q> &b) { if (a.size() != b.size()) return false; for (size_t i = 0; i < a.size(); ++i) { if (a[i].poison != b[i].poison) return false; if (!a[i].poison && a[i].v != b[i].v) return false; } return true; }
+
+template <class TM, class TV, int B, bool NUMA> struct MixedP {
+    typedef amgcl::static_matrix<TM, B, B> blk; typedef Cont<TV, NUMA> CV;
+    static blk to_blk(const std::vector<Q> &v) { blk x; for (int p = 0; p < B; ++p) for (int q = 0; q < B; ++q) x(p, q) = to_t<TM>(v[p * B + q]); return x; }
+    static Result run(const std::string &op, Cur &c) {
+        Result r; std::vector<Q> out, ref;
+        if (op == "mxp_vmul") {
+            Q a = c.rat(); long n = c.nat(); if (n < 1) throw bad_input("n"); std::vector<std::vector<Q>> X(n, std::vector<Q>(B * B)); for (auto &b : X) for (auto &e : b) e = c.rat();
+            auto y = c.vec(); Q be = c.rat(); auto z = c.vec(); c.expect_end();
+            if ((long)y.size() != n * B || (long)z.size() != n * B) throw bad_input("shape");
+            for (auto &b : X) if (!f32_exact(b)) throw bad_input("exact"); if (!f32_exact(y) || !f32_exact(z) || !f32_exact(a) || !f32_exact(be) || a.poison || be.poison) throw bad_input("exact");
+            std::vector<blk> xb(n); for (long i = 0; i < n; ++i) xb[i] = to_blk(X[i]);
+            amgcl::backend::numa_vector<blk> Xv(xb); auto Y = CV::make(y); auto Z = CV::make(z);
+            amgcl::backend::vmul(to_t<TV>(a), Xv, Y, to_t<TV>(be), Z);
+            out = back(Z); ref.resize(n * B);
+            for (long i = 0; i < n; ++i) for (int p = 0; p < B; ++p) { Q s(0); for (int q = 0; q < B; ++q) s += X[i][p * B + q] * y[i * B + q]; ref[i * B + p] = be == 0 ? a * s : a * s + be * z[i * B + p]; }
+            if (!qsame(out, ref)) r.fail("mixed vmul (block diagonal of static_matrix<" + std::string(sizeof(TM) == 4 ? "float" : "double") + "> with " + (sizeof(TV) == 4 ? "float" : "double") + " scalar vectors) != a X y + b z");
+            r.nontrivial = true;
+        } else {
+            bool is_spmv = op == "mxp_spmv"; Q a(1), be(0); std::vector<Q> f, x, y;
+            BMatQ A;
+            if (is_spmv) { a = c.rat(); A = rdbmat(c, B); x = c.vec(); be = c.rat(); y = c.vec(); } else { f = c.vec(); A = rdbmat(c, B); x = c.vec(); y = f; }
+            c.expect_end();
+            if (A.n < 1 || A.m < 1 || (long)x.size() != A.m * B || (long)y.size() != A.n * B) throw bad_input("shape");
+            for (auto &b : A.val) if (!f32_exact(b)) throw bad_input("exact"); if (!f32_exact(x) || !f32_exact(y) || !f32_exact(a) || !f32_exact(be) || a.poison || be.poison) throw bad_input("exact");
+            for (auto &e : x) if (e.poison) throw bad_input("poisoned input");
+            std::vector<blk> vb(A.val.size()); for (size_t i = 0; i < vb.size(); ++i) vb[i] = to_blk(A.val[i]);
+            amgcl::backend::crs<blk> M((size_t)A.n, (size_t)A.m, A.ptr, A.col, vb);
+            auto X = CV::make(x); auto Y = CV::make(y);
+            ref.assign(A.n * B, Q(0));
+            for (long i = 0; i < A.n; ++i) for (auto j = A.ptr[i]; j < A.ptr[i+1]; ++j) for (int p = 0; p < B; ++p) for (int q = 0; q < B; ++q) ref[i * B + p] += A.val[j][p * B + q] * x[A.col[j] * B + q];
+            if (is_spmv) { amgcl::backend::spmv(to_t<TV>(a), M, X, to_t<TV>(be), Y); out = back(Y); for (size_t i = 0; i < ref.size(); ++i) ref[i] = be == 0 ? a * ref[i] : a * ref[i] + be * y[i]; }
+            else { for (auto &e : f) if (e.poison) throw bad_input("poisoned input"); auto F = CV::make(f); std::vector<Q> pz(A.n * B, Q::poisoned()); auto Rr = CV::make(pz); amgcl::backend::residual(F, M, X, Rr); out = back(Rr); for (size_t i = 0; i < ref.size(); ++i) ref[i] = f[i] - ref[i]; }
+            if (!qsame(out, ref)) r.fail(std::string("mixed ") + (is_spmv ? "spmv" : "residual") + " (crs<static_matrix<" + (sizeof(TM) == 4 ? "float" : "double") + "," + std::to_string(B) + "," + std::to_string(B) + ">> with " + (sizeof(TV) == 4 ? "float" : "double") + " scalar vectors) != defining formula on the expanded matrix");
+            r.nontrivial = !A.col.empty();
+            bool empty_row = false; for (long i = 0; i < A.n; ++i) if (A.ptr[i] == A.ptr[i+1]) empty_row = true; if (empty_row) r.tag("empty_block_row"); if (A.n != A.m) r.tag("rectangular");
+        }
+        r.out = (Line() << out).get();
+        r.tag(op); r.tag("b" + std::to_string(B)); r.tag(std::string("m") + (sizeof(TM) == 4 ? "f" : "d") + "_v" + (sizeof(TV) == 4 ? "f" : "d")); r.tag(NUMA ? "numa_vector" : "std_vector");
+        return r;
+    }
+};
+template <class TM, class TV, int B> static Result mixedp_ct(const std::string &op, long ct, Cur &c) { return ct ? MixedP<TM, TV, B, true>::run(op, c) : MixedP<TM, TV, B, false>::run(op, c); }
+template <class TM, class TV> static Result mixedp_b(const std::string &op, long b, long ct, Cur &c) { return b == 2 ? mixedp_ct<TM, TV, 2>(op, ct, c) : b == 3 ? mixedp_ct<TM, TV, 3>(op, ct, c) : mixedp_ct<TM, TV, 4>(op, ct, c); }
+static Result mixedp(const std::string &op, Cur &c) {
+    long b = c.nat(), pm = c.nat(), pv = c.nat(), ct = c.nat();
+    if (b < 2 || b > 4 || pm < 0 || pm > 1 || pv < 0 || pv > 1 || ct < 0 || ct > 1) throw bad_input("hdr");
+    return pm ? (pv ? mixedp_b<double, double>(op, b, ct, c) : mixedp_b<double, float>(op, b, ct, c)) : (pv ? mixedp_b<float, double>(op, b, ct, c) : mixedp_b<float, float>(op, b, ct, c));
+}
+
 static Result execute(const Toks &t) {
     Cur c(t); const std::string &op = t[0]; Result r;
+    if (op == "mxp_spmv" || op == "mxp_residual" || op == "mxp_vmul") return mixedp(op, c);
     if (op == "eigc_spmv" || op == "eigc_residual") {
         bool is_spmv = op == "eigc_spmv"; CQ a(Q(1)), b(Q(0)); std::vector<CQ> f, x, y; CMat A;
         if (is_spmv) { a = rdc(c); A = rdcmat(c); x = rdcv(c); b = rdc(c); y = rdcv(c); } else { f = rdcv(c); A = rdcmat(c); x = rdcv(c); y = f; }
@@ -214,9 +289,25 @@ static CA gunimod(Rng &rng, int b, bool cx) {
 }
 static void generate(Rng &rng, const Opts &o, std::vector<std::string> &lines) {
     long N = o.cases > 0 ? o.cases : (o.thorough() ? 3000 : 600);
+    long kq = 0;
     for (long k = 0; k < N; ++k) {
         Line l; long n = rng.range(0, 8), m = rng.range(0, 8);
-        switch (k % 9) {
+        if (k % 3 == 2) {      // the mixed overloads at two precisions
+            long b = rng.range(2, 4), pm = rng.range(0, 1), pv = rng.coin(3, 4) ? 1 - pm : pm, ct = rng.range(0, 1), which = rng.range(0, 2);
+            auto sint = [&](long pm_) { return Q(rng.range(-pm_, pm_)); };
+            auto svec = [&](long len) { std::vector<Q> v(len); for (auto &e : v) e = sint(4); return v; };
+            long nb = rng.range(1, 5), mb = rng.coin() ? nb : rng.range(1, 5);
+            auto putblk = [&](Line &ll) { for (long e = 0; e < b * b; ++e) ll << sint(3); };
+            if (which == 2) { Q be = rng.coin(1, 3) ? Q(0) : sint(3); l << "mxp_vmul" << b << pm << pv << ct << sint(3) << nb; for (long i = 0; i < nb; ++i) putblk(l); l << svec(nb * b) << be; std::vector<Q> z = svec(nb * b); if (be == 0) for (auto &e : z) if (rng.coin()) e = Q::poisoned(); l << z; }
+            else {
+                std::vector<std::vector<long>> cols(nb); for (long i = 0; i < nb; ++i) { if (rng.coin(1, 4)) continue; for (long j = 0; j < mb; ++j) if (rng.coin(1, 2)) cols[i].push_back(j); if (rng.coin()) for (size_t q = cols[i].size(); q > 1; --q) std::swap(cols[i][q-1], cols[i][rng.next() % q]); }
+                auto putmat = [&](Line &ll) { ll << nb << mb; for (long i = 0; i < nb; ++i) { ll << (long)cols[i].size(); for (auto j : cols[i]) { ll << j; putblk(ll); } } };
+                if (which == 0) { Q be = rng.coin(1, 3) ? Q(0) : sint(3); l << "mxp_spmv" << b << pm << pv << ct << sint(3); putmat(l); l << svec(mb * b) << be; std::vector<Q> y = svec(nb * b); if (be == 0) for (auto &e : y) if (rng.coin()) e = Q::poisoned(); l << y; }
+                else { l << "mxp_residual" << b << pm << pv << ct << svec(nb * b); putmat(l); l << svec(mb * b); }
+            }
+            lines.push_back(l.get()); continue;
+        }
+        switch (kq++ % 9) {
             case 0: { CMat A = gcmat(rng, std::max<long>(n, 1), std::max<long>(m, 1), 45, rng.coin()); if (A.col.empty()) { A = gcmat(rng, 2, 2, 100, false); } l << "eigc_spmv"; putc(l, gint(rng, true)); putm(l, A); putcv(l, gvec(rng, A.m)); putc(l, rng.coin(1, 4) ? CQ(Q(0)) : gint(rng, true)); putcv(l, gvec(rng, A.n)); break; }
             case 1: { CMat A = gcmat(rng, std::max<long>(n, 1), std::max<long>(m, 1), 45, rng.coin()); if (A.col.empty()) { A = gcmat(rng, 2, 2, 100, false); } l << "eigc_residual"; putcv(l, gvec(rng, A.n)); putm(l, A); putcv(l, gvec(rng, A.m)); break; }
             case 2: l << "eigc_axpby"; putc(l, gint(rng, true)); putcv(l, gvec(rng, n)); putc(l, rng.coin(1, 4) ? CQ(Q(0)) : gint(rng, true)); putcv(l, gvec(rng, n)); break;
@@ -236,6 +327,9 @@ static void generate(Rng &rng, const Opts &o, std::vector<std::string> &lines) {
     lines.push_back("eigc_inner_product 1 1 0 2 1 0 1 0");
     lines.push_back("evt_ops 0 2 4 1 0 0 1 0 0 1 0 4 1 0 0 0 0 0 1 0 2 1 0 0 0 2 1 0 0 0 1 0");      // imaginary part in the real variant
     lines.push_back("evt_ops 1 5 0 0 0 0 0 0");
+    lines.push_back("mxp_spmv 5 0 1 0 1 1 1 0 2 1 1 0 2 0 0");                // block size outside 2..4
+    lines.push_back("mxp_spmv 2 0 1 0 1 1 1 0 3 1 1 1 0 2 0 0");              // x of the wrong length
+    lines.push_back("mxp_vmul 2 0 1 0 1 1 1 0 0 1 2 1 1 0 1 0");              // z of the wrong length
     lines.push_back("evt_ops 1 2 4 1 0 0 0 0 0 1 0 4 1 0 0 0 0 0 1 0 2 1 0 0 0 2 1 0 0 0");        // truncated
 }
 
